@@ -167,6 +167,13 @@ pub mod mpsc {
                 final(cx).armed_sinks() == old(cx).armed_sinks(),
         { unimplemented!() }
     }
+    #[verifier::external_body] pub struct SendError { _p: u8 }
+    impl<T> Sender<T> {
+        // SinkExt::send on a bounded channel: completes only when the receiving router makes room (waits for a peer)
+        #[verifier::external_body] pub async fn send(&mut self, item: T) -> (r: Result<(), SendError>) { unimplemented!() }
+        #[verifier::external_body] pub fn close_channel(&mut self) { unimplemented!() }
+    }
+    impl<T> Clone for Sender<T> { #[verifier::external_body] fn clone(&self) -> (r: Self) { unimplemented!() } }
     #[verifier::external_body] pub fn channel<T: Carried>(buffer: usize) -> (r: (Sender<T>, Receiver<T>)) ensures r.1.budget() == 0, !r.1.closed() { unimplemented!() }
 }
 pub use mpsc::Receiver;
